@@ -20,6 +20,8 @@ def plan_state(i, t, variant):
         return "active" if (i + int(t)) % 2 == 0 else "idle"
     if variant == 1:
         return "active" if t < 1 or i == 0 else "idle"          # 'idle' is empty at t=0
+    if variant == 3:
+        return "active" if (i + int(t)) % 2 == 0 else "idle"    # as variant 0; the last agent is deleted during the step at t=1
     return "active"                                             # 'idle' never populated
 
 
@@ -38,6 +40,9 @@ def make_bptk(n, variant, values):
         def act(self, time, round_no, step_no):
             self.state = plan_state(self.id, time + 1, variant)   # state for the next recorded time... recorded after act
             self.state = plan_state(self.id, time, variant)
+            if variant == 3 and self.id == 0 and time == 1.0:
+                # the first agent removes the last one of its population while the step is running
+                self.model.delete_agent(max(a.id for a in self.model.agents))
 
     class M(Model):
         def instantiate_model(self):
@@ -60,7 +65,8 @@ def scenarios_of(n):
 
 
 def expected_members(n, variant, t, state):
-    return [i for i in range(n) if plan_state(i, t, variant) == state]
+    live = range(n - 1) if (variant == 3 and t >= 1.0 and n > 1) else range(n)      # variant 3: the last agent is gone from t=1 on
+    return [i for i in live if plan_state(i, t, variant) == state]
 
 
 def run(n, variant, fmt, values):
